@@ -10,6 +10,8 @@ import (
 
 	"github.com/jig/lisp"
 	"github.com/jig/lisp/env"
+	"github.com/jig/lisp/lib/call"
+	"github.com/jig/lisp/lib/core"
 	"github.com/jig/lisp/lib/core/nscore"
 	"github.com/jig/lisp/reader"
 
@@ -50,9 +52,107 @@ func (e *printDeepEngine) generate(r *rng, n int, tier string, emit func(string)
 	for _, d := range []int{200, 999, 1000, 1001, 1500, 3000} {
 		emit("depth=" + strconv.Itoa(d))
 	}
+	// strings far longer than any line or token buffer (64 KiB, 1 MiB, 4 MiB), of every printed shape: ordinary, needing
+	// escapes, JSON-like (printed raw between ¬ … ¬), alone and inside collections
+	sizes := []int{65535, 65537, 1<<20 - 1, 1<<20 + 1, 1<<20 + 100000, 3 << 20}
+	if tier == "thorough" {
+		sizes = append(sizes, 1<<22+1, 9<<20, 1<<24+1)
+	}
+	for _, n := range sizes {
+		for _, k := range []string{"plain", "escapes", "json", "jsonnl"} {
+			emit("bigstr " + k + " " + strconv.Itoa(n))
+		}
+	}
+	// after a print that PANICKED (an embedder value whose LispPrint panics, recovered by the embedder or by lib/call), the
+	// printer prints the next values as if nothing had happened
+	for round := 0; round < 4; round++ {
+		emit("afterpanic " + strconv.Itoa(round))
+	}
+}
+
+type pxBadPrinter struct{ inner *pxPoint }
+
+func (b pxBadPrinter) LispPrint(pr func(MalType, bool) string) string { return "«bad " + strconv.Itoa(b.inner.X) + "»" } // nil field: panics
+func (b pxBadPrinter) Type() string                                    { return "bad" }
+
+func (e *printDeepEngine) runAfterPanic(round int) string {
+	bad := pxBadPrinter{}
+	ns := env.NewEnv()
+	if err := nscore.Load(ns); err != nil {
+		return "setup-error"
+	}
+	ns.Set(Symbol{Val: "bad"}, bad)
+	shapes := []MalType{
+		List{Val: []MalType{"accounts:", 1, bad}}, Vector{Val: []MalType{"balance of", 1, 2, bad}}, HashMap{Val: map[string]MalType{"k": Vector{Val: []MalType{1, bad}}}},
+		List{Val: []MalType{List{Val: []MalType{1, 2}}, Vector{Val: []MalType{List{Val: []MalType{3, bad}}}}}},
+	}
+	for i := 0; i <= round; i++ {
+		for _, sh := range shapes {
+			safeRunInline(func() string { lisp.PRINT(sh); return "" })
+		}
+		for _, src := range []string{`(try (pr-str "balance of" 1 2 bad) (catch e nil))`, `(try (str [1 2 bad]) (catch e nil))`, `(try (pr-str {:a [1 bad]}) (catch e nil))`} {
+			if ast, err := lisp.READ(src, nil, ns); err == nil {
+				safeRunInline(func() string { lisp.EVAL(context.Background(), ast, ns); return "" })
+			}
+		}
+	}
+	checks := []struct {
+		v    MalType
+		want string
+	}{
+		{Vector{Val: []MalType{3, 4}}, "[3 4]"}, {List{Val: []MalType{1, List{Val: []MalType{2}}}}, "(1 (2))"}, {List{}, "()"},
+		{HashMap{Val: map[string]MalType{"k": Vector{Val: []MalType{"s"}}}}, `{"k" ["s"]}`}, {Vector{Val: []MalType{Vector{}, List{Val: []MalType{nil}}}}, "[[] (nil)]"},
+	}
+	for rep := 0; rep < 8; rep++ {
+		for _, c := range checks {
+			if got := lisp.PRINT(c.v); got != c.want {
+				return "rt=FAIL\t!after a print that panicked (recovered), PRINT of " + c.want + " gives " + oneLine(got)[:min(len(oneLine(got)), 200)]
+			}
+		}
+		for _, src := range []string{"(pr-str [3 4])", "(str (list 1 2))", "(pr-str 1 [2] (list 3))"} {
+			ast, _ := lisp.READ(src, nil, ns)
+			v, err := lisp.EVAL(context.Background(), ast, ns)
+			want := map[string]string{"(pr-str [3 4])": "[3 4]", "(str (list 1 2))": "(1 2)", "(pr-str 1 [2] (list 3))": "1 [2] (3)"}[src]
+			if got, _ := v.(string); err != nil || got != want {
+				return "rt=FAIL\t!after a print that panicked (recovered), " + src + " gives " + oneLine(got)[:min(len(oneLine(got)), 200)]
+			}
+		}
+	}
+	return "rt=ok"
+}
+
+func (e *printDeepEngine) runBigStr(kind string, n int) string {
+	var s string
+	switch kind {
+	case "plain":
+		s = strings.Repeat("x", n)
+	case "escapes":
+		s = strings.Repeat("a\"b\\c\nd", n/7+1)[:n]
+	case "json":
+		s = "{\"k\": \"" + strings.Repeat("v", n) + "\"}"
+	default:
+		s = "{\"k\": [\n" + strings.Repeat("1,\n", n/3) + "1]}"
+	}
+	for i, v := range []MalType{s, Vector{Val: []MalType{1, s}}, HashMap{Val: map[string]MalType{"k": s}}} {
+		text := lisp.PRINT(v)
+		if o := roundTripText(v, text); o != "rt=ok" {
+			return o + "\t!a " + kind + " string of " + strconv.Itoa(len(s)) + " bytes (shape " + strconv.Itoa(i) + ") does not read back from its printed form (" + o + ")"
+		}
+	}
+	return "rt=ok"
 }
 
 func (e *printDeepEngine) run(payload string) string {
+	if f := strings.Fields(payload); len(f) == 3 && f[0] == "bigstr" {
+		n, err := strconv.Atoi(f[2])
+		if err != nil || n < 1 || n > 1<<26 {
+			return "bad-case"
+		}
+		return e.runBigStr(f[1], n)
+	} else if len(f) == 2 && f[0] == "afterpanic" {
+		round, _ := strconv.Atoi(f[1])
+		return e.runAfterPanic(round)
+	}
 	d, err := strconv.Atoi(strings.TrimPrefix(payload, "depth="))
 	if err != nil || d < 1 || d > 100000 {
 		return "bad-case"
@@ -184,7 +284,85 @@ func (e *preambleEngine) runX(payload string) (string, string) {
 	if why := preambleReuse(e.theEnv()); why != "" {
 		obs += "\t!" + why
 	}
+	if why := preambleTyped(e.theEnv()); why != "" {
+		obs += "\t!" + why
+	}
 	return obs, extra
+}
+
+// an embedder type with a printed form of its own and its constructor
+type pxPoint struct{ X, Y int }
+
+func (p pxPoint) LispPrint(pr func(MalType, bool) string) string {
+	return "«point " + strconv.Itoa(p.X) + " " + strconv.Itoa(p.Y) + "»"
+}
+func (p pxPoint) Type() string { return "point" }
+
+var preambleTypedDone bool
+
+// preambleTyped, once per run: (1) values that print as «type …» forms — error values, an embedder type — alone and nested
+// in data, survive the transport when the reading environment has their constructors; (2) a placeholder without a value
+// reads as nil also when the environment happens to bind a symbol of that name (bound by an earlier evaluation through
+// the plain READ route, or by the host), quoted or not, and "$name" inside a string stays text.
+func preambleTyped(ns EnvType) string {
+	if preambleTypedDone {
+		return ""
+	}
+	preambleTypedDone = true
+	call.CallOverrideFN(ns, "new-point", func(x, y int) (pxPoint, error) { return pxPoint{x, y}, nil })
+	mkErr := func(src string) MalType {
+		ast, err := lisp.READ(src, nil, ns)
+		if err != nil {
+			return nil
+		}
+		v, _ := lisp.EVAL(context.Background(), ast, ns)
+		return v
+	}
+	errV := mkErr(`(new-error "boom")`)
+	errM := mkErr(`(new-error {:code 7})`)
+	if errV == nil || errM == nil {
+		return "" // this tree has no error constructor: nothing to transport
+	}
+	pt := pxPoint{1, 2}
+	values := []MalType{errV, errM, pt, Vector{Val: []MalType{1, pt, "s"}}, HashMap{Val: map[string]MalType{"k": errV}},
+		List{Val: []MalType{pt, Vector{Val: []MalType{errV}}}}}
+	for i, v := range values {
+		table := map[string]MalType{"$V": v, "$N": 7}
+		text, err := lisp.AddPreamble("[$N $V $MISSING {:in [$V]}]", table)
+		if err != nil {
+			return "AddPreamble failed: " + oneLine(err.Error())
+		}
+		got, err := lisp.READWithPreamble(text, nil, ns)
+		if err != nil {
+			return "READWithPreamble of an AddPreamble text with a «type …» value failed: " + oneLine(err.Error())
+		}
+		want := Vector{Val: []MalType{7, v, nil, HashMap{Val: map[string]MalType{"ʞin": Vector{Val: []MalType{v}}}}}}
+		if g, w := lisp.PRINT(got), lisp.PRINT(want); g != w {
+			return "a placeholder value that prints as a «type …» form (value " + strconv.Itoa(i) + ") did not survive the preamble: read " + oneLine(g)[:min(len(oneLine(g)), 160)] + " , expected " + oneLine(w)[:min(len(oneLine(w)), 160)]
+		}
+	}
+	// (2)
+	for _, bind := range []string{"lisp", "host"} {
+		e2 := env.NewEnv()
+		core.Load(e2)
+		if bind == "lisp" {
+			if ast, err := lisp.READ("(def $limit 10)", nil, e2); err == nil {
+				lisp.EVAL(context.Background(), ast, e2)
+			}
+		} else {
+			e2.Set(Symbol{Val: "$limit"}, 10)
+		}
+		text, _ := lisp.AddPreamble("(list $limit $greeting \"$limit\" '$limit [$limit])", map[string]MalType{"$greeting": "hi"})
+		got, err := lisp.READWithPreamble(text, nil, e2)
+		if err != nil {
+			return "READWithPreamble failed on an environment that binds a symbol named like a placeholder: " + oneLine(err.Error())
+		}
+		want, _ := lisp.READ("(list nil \"hi\" \"$limit\" (quote nil) [nil])", nil, e2)
+		if g, w := lisp.PRINT(got), lisp.PRINT(want); g != w {
+			return "a placeholder without a value must read as nil whatever the environment binds (" + bind + " bound $limit): read " + g + " , expected " + w
+		}
+	}
+	return ""
 }
 
 var preambleReuseDone = map[int]bool{}
